@@ -84,3 +84,54 @@ YK_ENTRY(H_c20_t1_n1, (c20_t1<1>()))
 YK_ENTRY(H_c20_t1_n3, (c20_t1<3>()))
 YK_ENTRY(H_c20_t2, (c20_t2()))
 YK_ENTRY(H_c20_t3, (c20_t3()))
+
+// ------------------------------------------------------------------------------------------- C11
+// dropping a tree (what destroy() / delete_storage do per storage: root->destroy(); delete root) releases every node
+// and every value of it, across layers and interior levels - nothing is left allocated, nothing is freed twice
+namespace {
+inline void c11_drop_t1() {
+    std::int64_t live0 = yk_live_allocs();
+    bstate<3> st;
+    build_border<3>(st, true, 1);
+    base_node* root = st.node;
+    YK_ASSERT(yk_live_allocs() == live0 + 4);
+    root->destroy();
+    delete root;
+    YK_ASSERT(yk_live_allocs() == live0);
+    YK_REACH();
+}
+inline void c11_drop_t2() {
+    std::int64_t live0 = yk_live_allocs();
+    bstate<2> top;
+    bstate<2> sub;
+    build_border<2>(top, true, 0, 0);
+    build_border<2>(sub, true, 1);
+    attach_layer(top, 0, sub.node);
+    base_node* root = top.node;
+    root->destroy();
+    delete root;
+    YK_ASSERT(yk_live_allocs() == live0);
+    YK_REACH();
+}
+inline void c11_drop_t3() {
+    std::int64_t live0 = yk_live_allocs();
+    bstate<1> a;
+    bstate<2> b;
+    build_border<1>(a, false, 0);
+    build_border<2>(b, false, 0);
+    auto* in = new interior_node();
+    in->set_child_at(0, a.node);
+    in->set_child_at(1, b.node);
+    in->set_key(0, b.e[0].slice, (key_length_type) b.e[0].len);
+    in->set_n_keys(1);
+    in->set_version(mk_version(false, true, false, YK_VINS0, YK_VSPLIT0));
+    base_node* root = in;
+    root->destroy();
+    delete root;
+    YK_ASSERT(yk_live_allocs() == live0);
+    YK_REACH();
+}
+} // namespace
+YK_ENTRY(H_c11_drop_t1, (c11_drop_t1()))
+YK_ENTRY(H_c11_drop_t2, (c11_drop_t2()))
+YK_ENTRY(H_c11_drop_t3, (c11_drop_t3()))
